@@ -686,7 +686,7 @@ impl Prop for C15 {
         run(c, o)
     }
     fn rule() -> &'static str {
-        "finite configuration matrix enumerated completely, each cell under two fixed pipe schedules, plus random cells under generated schedules and scheduler seeds; real rustls handshakes (tonic tls-ring) over the in-memory pipe with a committed EC fixture PKI. (A) tonic client {roots: right CA, other CA, none} x {domain configured good/bad, taken from URI good/bad} x raw-rustls server ALPN {h2, none, http/1.1} x assume_http2 x {server certificate for the right / another name}, and an https endpoint without TLS config; (B) tonic client identity {none, valid, issued by another CA} x tonic server client-auth {none, required, optional}; (C) raw rustls+h2 clients (same identities, ALPN h2/none) against the tonic server. Oracle = independent trust model: call succeeds iff chain and name and (ALPN h2 or assume_http2) [and client-auth satisfied]; otherwise the call fails, no request reaches the peer/handler, and the first byte the client wrote is a TLS handshake record (never a plaintext HTTP/2 preface); handlers see peer_certs iff a client certificate was verified. Non-trivial: every cell other than all-defaults-valid. (D) a ClientTlsConfig trusting only another CA and a clone of it extended with the right CA, used in that order: the original must still be refused; a raw TLS client offering only http/1.1 must not be served. (E) OptionalFlagFirst: client_auth_optional(true) called before client_ca_root; a non-transient accept error followed by a plaintext HTTP/2 client (never served) and a proper TLS client (served)."
+        "finite configuration matrix enumerated completely, each cell under two fixed pipe schedules, plus random cells under generated schedules and scheduler seeds; real rustls handshakes (tonic tls-ring) over the in-memory pipe with a committed EC fixture PKI. (A) tonic client {roots: right CA, other CA, none} x {domain configured good/bad, taken from URI good/bad} x raw-rustls server ALPN {h2, none, http/1.1} x assume_http2 x {server certificate for the right / another name}, and an https endpoint without TLS config; (B) tonic client identity {none, valid, issued by another CA} x tonic server client-auth {none, required, optional}; (C) raw rustls+h2 clients (same identities, ALPN h2/none) against the tonic server. Oracle = independent trust model: call succeeds iff chain and name and (ALPN h2 or assume_http2) [and client-auth satisfied]; otherwise the call fails, no request reaches the peer/handler, and the first byte the client wrote is a TLS handshake record (never a plaintext HTTP/2 preface); handlers see peer_certs iff a client certificate was verified. Non-trivial: every cell other than all-defaults-valid. (D) a ClientTlsConfig trusting only another CA and a clone of it extended with the right CA, used in that order: the original must still be refused; a raw TLS client offering only http/1.1 must not be served. (E) OptionalFlagFirst: client_auth_optional(true) called before client_ca_root; a non-transient accept error followed by a plaintext HTTP/2 client (never served) and a proper TLS client (served). Client cells also run lazily connected and with a connect_timeout (third enumerated schedule; at random otherwise)."
     }
     fn assumptions() -> Vec<String> {
         vec![
